@@ -49,12 +49,16 @@ type Spec struct {
 	// PanicIsViolation: a recovered panic whose stack contains a gmrtd frame is a
 	// violation (default true for every check; a harness-only panic is always exit 2).
 	PanicNotViolation bool
-	HangSeconds       int // per-case wall limit before the worker gives up (default 120)
-	MemLimitMB        int // RLIMIT_AS for workers (0 = none)
-	MinEvaluations    int64
-	Assumptions       []string
-	Exhaustive        func(tier string) bool
-	Run               func(c *Ctx)
+	// Race: the harness binary is built with -race; workers run with GORACE
+	// halt_on_error=0 log_path=<work>/race and the parent turns every DATA RACE report that
+	// involves a gmrtd frame into a violation (a report purely in harness frames is exit 2).
+	Race           bool
+	HangSeconds    int // per-case wall limit before the worker gives up (default 120)
+	MemLimitMB     int // RLIMIT_AS for workers (0 = none)
+	MinEvaluations int64
+	Assumptions    []string
+	Exhaustive     func(tier string) bool
+	Run            func(c *Ctx)
 }
 
 // Violation is one refuting observation.
@@ -315,16 +319,16 @@ func (c *Ctx) Note(key, val string) { c.notes[key] = val }
 // worker side
 
 type workerOut struct {
-	Evals    int64            `json:"evals"`
-	Hashes   []uint64         `json:"hashes"`
-	Counters map[string]int64 `json:"counters"`
-	Samples  []any            `json:"samples"`
-	Viols    []Violation      `json:"viols"`
-	Inconcl  []string         `json:"inconcl"`
+	Evals    int64             `json:"evals"`
+	Hashes   []uint64          `json:"hashes"`
+	Counters map[string]int64  `json:"counters"`
+	Samples  []any             `json:"samples"`
+	Viols    []Violation       `json:"viols"`
+	Inconcl  []string          `json:"inconcl"`
 	Notes    map[string]string `json:"notes"`
-	Done     bool             `json:"done"`
-	LastIdx  int64            `json:"last_idx"`
-	Total    int64            `json:"total"`
+	Done     bool              `json:"done"`
+	LastIdx  int64             `json:"last_idx"`
+	Total    int64             `json:"total"`
 }
 
 func (c *Ctx) flush(done bool) {
